@@ -26,7 +26,7 @@ def run(ctx, proof):
         res.setdefault("errors", []).append(err)
     else:
         for f in data["oracle_failures"]:
-            if f["sig"] in ("C18:read-missing", "C18:read-values"):
+            if f["sig"] in ("C18:read-missing", "C18:read-values", "C18:write-corrupts-input"):
                 res["oracle_failures"].append(dict(f, sig="C03:netcdf-" + f["sig"][4:]))
         res["evaluations"] = res.get("evaluations", 0) + data["distribution"].get("reads", 0)
         res.setdefault("extra", {})["netcdf_reads"] = data["distribution"].get("reads", 0)
